@@ -115,8 +115,9 @@ CLAIMED["C14"] = {
             "message functions of common, bds.infer, tell) on one fully symbolic 112-bit frame and one fully symbolic "
             "56-bit frame (pair functions: two frames): every feasible path ends in a value of the documented shape or "
             "RuntimeError, and a value is returned only inside the documented DF / type code / TC29-subtype domain "
-            "(spec/domains.py). Bounds: quick tier uses concrete CPR fields for the pair decoders; cap17 four "
-            "capability bits at a time.",
+            "(spec/domains.py); call sequences (long, short, long frame through the same function in one run) must satisfy "
+            "the same claims per call. Bounds: seeded concrete CPR fields for the pair decoders (thorough: "
+            "airborne_position fully symbolic); cap17 four capability bits at a time.",
     "design_ref": "DESIGN.md section 5 C14", "note": NOTE,
     "technique": T_SYMX + "; function summaries for the isXX predicates inside infer/tell; parity field parametrised as "
                           "parity(data) XOR free variable so CRCs collapse in the GF(2) normal form",
@@ -128,8 +129,10 @@ CLAIMED["C12"] = {
             "sorted comma-join of the labels whose predicate summary holds; each isXX refuses every payload that breaks "
             "one of its Doc 9871 status / reserved-bit / BDS-id rules and accepts every in-envelope payload "
             "(BDS 1,0 1,7 2,0 3,0 4,0 4,5 5,0 6,0); is50or60 returns None exactly when not both apply and otherwise one "
-            "of the three labels. PARTIAL: which interpretation is numerically nearest, BDS 6,0 completeness under the "
-            "DF20 Mach/IAS cross-check and BDS 4,4 completeness are outside.",
+            "of the three labels, the one of a smallest non-NaN candidate distance; each predicate called on the same payload "
+            "under two headers in sequence answers as its own formula says (no state between calls). PARTIAL: the numeric "
+            "values of the distances, BDS 6,0 completeness under the DF20 Mach/IAS cross-check and BDS 4,4 completeness "
+            "are outside.",
     "design_ref": "DESIGN.md section 5 C12", "note": NOTE,
     "technique": T_SYMX + "; nested function summaries (each predicate explored once into a formula), aero / numpy "
                           "numerics as uninterpreted functions",
@@ -155,7 +158,8 @@ CLAIMED["C17"] = {
             "aircraft heard <= 59 s ago stays, one silent > 61 s goes; a Comm-B message changes nothing unless its address "
             "is already listed (any hex case); a stored position that is updated is within 0.001 deg (one CPR step where "
             "that is coarser) of the true position for every 600-kt motion box, through the reference path (< 180 s) and "
-            "the even/odd pair path (< 10 s), per NL band. Bounds: <= 2 aircraft, CPR fields seeded in the totality "
+            "the even/odd pair path (< 10 s), per NL band; an older reference / pair is not used; two aircraft in one "
+            "batch do not leak into each other; the table key is the canonical upper-case address. Bounds: <= 2 aircraft, CPR fields seeded in the totality "
             "items, surface targets poleward of 88.5 deg and > 45 NM from the receiver outside.",
     "design_ref": "DESIGN.md section 5 C17", "note": NOTE,
     "technique": T_CPR + "; one inductive step from an arbitrary invariant-satisfying state (symbolic table contents, "
